@@ -475,8 +475,8 @@ func (x *Exec) symLeaf(st *State, t types.Type, name string, idx *Term) Value {
 		}
 		return &Tuple{typ: t, el: el}
 	}
-	fail("unsupported symbolic array element type %v", t)
-	return nil
+	// interfaces, slices, maps inside symbolic aggregates: not modelled structurally
+	return &Opaque{typ: t, tag: "elem$" + name, id: x.ufApp(st, "sel_"+name+"$opq", SInt, []*Term{idx})}
 }
 
 func (x *Exec) symArrLoad(st *State, sa *SymArr, p *Ptr) Value {
@@ -878,6 +878,7 @@ func (x *Exec) externalCall(st *State, name string, sig *types.Signature, args [
 	for i := 0; i < res.Len(); i++ {
 		vals[i] = x.havocResult(st, res.At(i).Type(), name)
 	}
+	st.log[len(st.log)-1].res = vals
 	return []Out{{st: st, vals: vals}}
 }
 
